@@ -27,5 +27,21 @@ s = open(p).read()
 i = s.index('| id | quick: obligations / paths / wall | thorough: obligations / paths / wall |')
 j = s.index('\n\n', i)
 s = s[:i] + table + s[j:]
+# section 0: last column of the at-a-glance table
+qs = {}
+for f in sorted(glob.glob(os.path.join(ROOT, 'evidence', 'C*.json'))):
+    e = json.load(open(f))
+    qs[e['property_id']] = round(e['wall_s'])
+a = s.index('## 0. At a glance')
+b = s.index('## 1. The technique')
+sec = s[a:b]
+def fix(m):
+    pid = m.group(1)
+    cells = m.group(0).rstrip('|').split('|')
+    t = th.get(pid)
+    cells[-1] = ' %s s / %s (measured, 16 cores, machine shared with other jobs) ' % (qs.get(pid, '?'), ('%d s' % t[2]) if t else 'see 12.6')
+    return '|'.join(cells) + '|'
+sec = re.sub(r'^\| (C\d\d) \|.*\|$', fix, sec, flags=re.M)
+s = s[:a] + sec + s[b:]
 open(p, 'w').write(s)
 print(table)
